@@ -2,6 +2,7 @@ package main
 
 import (
 	"bytes"
+	"encoding/binary"
 	"fmt"
 	"io"
 	"runtime"
@@ -177,7 +178,7 @@ var c08Concs = []int{2, 3, 4, 16}
 
 func c08Counts(c *Ctx) (nW, nR int64) {
 	nW = int64(numW8Scripts*len(c08Concs)*7) * c08Perturb(c)
-	nR = int64(3*3*3*2) * c08Perturb(c)
+	nR = int64(3*3*numR8*2) * c08Perturb(c)
 	return
 }
 
@@ -491,9 +492,11 @@ const (
 	r8Clean = iota
 	r8CorruptBlock
 	r8SourceFails
+	r8EmptyThenCorrupt // an empty stored block early in the frame, a corrupted block later
+	numR8
 )
 
-var r8Names = []string{"clean", "corrupt-block", "source-fails"}
+var r8Names = []string{"clean", "corrupt-block", "source-fails", "empty-block-then-corrupt-block"}
 
 func c08Reader(c *Ctx, i int64) {
 	per := c08Perturb(c)
@@ -501,8 +504,8 @@ func c08Reader(c *Ctx, i int64) {
 	k := int(i / per)
 	conc := []int{2, 4, 16}[k%3]
 	mode := []int{rdSmall, rdBlock, rdWriteTo}[(k/3)%3]
-	cond := (k / 9) % 3
-	variant := k / 27
+	cond := (k / 9) % numR8
+	variant := k / (9 * numR8)
 	g := prng.Derive(c.Seed, prng.Hash("C08r"), uint64(k))
 	nb := []int{3, 9}[variant%2]
 	data := distinctBlocks(g, nb, 65536, 1+g.N(3000))
@@ -527,6 +530,16 @@ func c08Reader(c *Ctx, i int64) {
 		in[corruptAt] ^= 1 << uint(g.N(8))
 	case r8SourceFails:
 		failAt = 2 + g.N(3*len(pf.Blocks))
+	case r8EmptyThenCorrupt:
+		// header | empty stored block (+ its checksum) | original blocks, one of the last ones corrupted
+		first := pf.Blocks[0].HdrOff
+		in = append([]byte(nil), frame[:first]...)
+		in = append(in, 0, 0, 0, 0x80)
+		in = binary.LittleEndian.AppendUint32(in, ref.XXH32(nil))
+		in = append(in, frame[first:]...)
+		b := pf.Blocks[len(pf.Blocks)-1-g.N(2)]
+		corruptAt = 8 + b.DataOff + g.N(b.Size)
+		in[corruptAt] ^= 1 << uint(g.N(8))
 	}
 	mode2, seed, slow, pname := perturbFor(c, i+1_000_000, p)
 	before, _ := libGoroutines()
@@ -623,7 +636,7 @@ func c08Reader(c *Ctx, i int64) {
 			}
 			c.Violation(key, fmt.Sprintf("concurrent Reader (conc %d, %s, %s) on a valid frame: err=%v, %d of %d bytes", conc, rdNames[mode], pname, rerr, len(out), len(data)), det())
 		}
-	case r8CorruptBlock:
+	case r8CorruptBlock, r8EmptyThenCorrupt:
 		if rerr == nil {
 			c.Violation("corrupt-block-accepted", fmt.Sprintf("a frame with a flipped payload bit (block checksums on) was read to a clean end (conc %d, %s, %s)", conc, rdNames[mode], pname), det())
 		}
